@@ -2270,24 +2270,17 @@ func (vm *Thread) growValueStack() {
 
 	for i := range vm.callFrames {
 		cf := &vm.callFrames[i]
-		offset := uintptr(vm.stackOffsetFromToRaw(oldStackPtr, cf.fp))
-		cf.fp = vm.stackAddRaw(newStackPtr, offset)
-		for _, upvalue := range cf.upvalues {
-			if upvalue.IsClosed() {
-				continue
-			}
-
-			offset := vm.stackOffsetFromTo(&vm.stack[0], upvalue.slot)
-			upvalue.slot = vm.stackAdd(&newStack[0], offset)
-		}
-	}
-
-	for _, upvalue := range vm.upvalues {
-		if upvalue.IsClosed() {
+		if cf.isNative || cf.sentinel {
+			// native frames keep a symbol, not a stack address, in fp
 			continue
 		}
+		offset := uintptr(vm.stackOffsetFromToRaw(cf.fp, oldStackPtr))
+		cf.fp = vm.stackAddRaw(newStackPtr, offset)
+	}
 
-		offset := vm.stackOffsetFromTo(&vm.stack[0], upvalue.slot)
+	// every open upvalue is on the open upvalue list exactly once
+	for upvalue := vm.openUpvalueHead; upvalue != nil; upvalue = upvalue.next {
+		offset := vm.stackOffsetFromTo(upvalue.slot, &vm.stack[0])
 		upvalue.slot = vm.stackAdd(&newStack[0], offset)
 	}
 
